@@ -541,9 +541,11 @@ int stage_quadratic(const args_t& args)
     report_t r("c01/quadratic", args);
 
     // the whole lattice of the design costs about a second, so both tiers enumerate all of it
-    const std::vector<int>    dims    = {1, 2, 3, 4, 8, 16};
+    const std::vector<int>    dims    = {1, 2, 3, 4, 5, 8, 11, 13, 16};
     const auto                spectra = make_spectra();
-    const std::vector<double> scales  = {1.0, 1e-3, 1e3};
+    // the three corners of the stated range first, then a geometric ladder through it (weakly curved problems are where a
+    // quasi-Newton update with a wrong scale needs the most line-search work: seed C01-c)
+    const std::vector<double> scales  = {1.0, 1e-3, 1e3, 2.4e-3, 5e-3, 1e-2, 3e-2, 0.1, 10.0, 100.0};
     const std::vector<solver_config_t> solvers = {{"lbfgs", 20, "lbfgs (history 20 = default)", true},
                                                   {"bfgs", 0, "bfgs", true},
                                                   {"lbfgs", 5, "lbfgs history 5 (truthfulness only)", false},
